@@ -11,6 +11,7 @@ import (
 	"regexp"
 	"strconv"
 	"strings"
+	"sync"
 	"time"
 
 	"github.com/la5nta/wl2k-go/catalog"
@@ -203,6 +204,42 @@ func Main(args []string) int {
 		w.Write(nil, []rec.Event{posEvent(lats[i%len(lats)], lons[i%len(lons)])})
 		npos++
 	}
+	// the corners, the origin and the axes (both coordinates set, one or both of them zero)
+	for _, pr := range [][2]float64{{0, 0}, {0, 12.5}, {-33.25, 0}, {math.Copysign(0, -1), 0}, {0, math.Copysign(0, -1)}, {90, 180}, {-90, -180}, {90, -180}, {-90, 180}, {0, 180}, {0, -180}, {90, 0}} {
+		w.Write(nil, []rec.Event{posEvent(pr[0], pr[1])})
+		npos++
+	}
+	// reports built by several goroutines at the same time are what they are when built alone
+	{
+		type job struct{ lat, lon float64 }
+		jobs := make([]job, 4000)
+		alone := make([]string, len(jobs))
+		for i := range jobs {
+			jobs[i] = job{-90 + 180*rng.Float64(), -180 + 360*rng.Float64()}
+			la, lo := jobs[i].lat, jobs[i].lon
+			alone[i], _, _ = safeMessage(catalog.PosReport{Date: date, Lat: &la, Lon: &lo, Comment: fmt.Sprint("report ", i)})
+		}
+		together := make([]string, len(jobs))
+		var wg sync.WaitGroup
+		for g := 0; g < 8; g++ {
+			wg.Add(1)
+			go func(g int) {
+				defer wg.Done()
+				for i := g; i < len(jobs); i += 8 {
+					la, lo := jobs[i].lat, jobs[i].lon
+					together[i], _, _ = safeMessage(catalog.PosReport{Date: date, Lat: &la, Lon: &lo, Comment: fmt.Sprint("report ", i)})
+				}
+			}(g)
+		}
+		wg.Wait()
+		diff := 0
+		for i := range jobs {
+			if together[i] != alone[i] {
+				diff++
+			}
+		}
+		w.Write(nil, []rec.Event{{"op": "Concurrent", "reports": len(jobs), "differ": diff}})
+	}
 	// courses
 	ncourse := 0
 	for deg := 0; deg <= 360; deg++ {
@@ -221,10 +258,16 @@ func Main(args []string) int {
 	}
 	// optional fields: all 16 combinations
 	nfields := 0
-	for mask := 0; mask < 16; mask++ {
+	for mask := 0; mask < 64; mask++ {
 		p := catalog.PosReport{Date: date}
+		if mask&16 != 0 {
+			p.Date = time.Time{} // no date given
+		}
 		set := map[string]bool{"pos": mask&1 != 0, "speed": mask&2 != 0, "course": mask&4 != 0, "comment": mask&8 != 0}
 		lat, lon, speed := -33.25, 151.5, 12.5
+		if mask&32 != 0 {
+			lat, lon, speed = 0, 0, 0 // set, and zero
+		}
 		if set["pos"] {
 			p.Lat, p.Lon = &lat, &lon
 		}
